@@ -2,7 +2,9 @@ package props
 
 import (
 	"context"
+	"github.com/spf13/afero"
 	"os"
+	"sync"
 	"testing"
 	"time"
 
@@ -102,4 +104,42 @@ func downloadBundle(stores context2.Stores, repo, id string, dest storage.Store,
 		err = core.VerifPublish(context.Background(), b, epf, nil)
 	}
 	return b, err
+}
+
+// ---- afero.MemMapFs with parallel-safe WriteAt ---------------------------------------------------
+//
+// io.WriterAt allows parallel WriteAt calls on non-overlapping ranges, and datamon's downloads rely on it (as os.File
+// honours it). afero's in-memory file implements WriteAt as "store the offset, then Write", which is not atomic: two
+// parallel calls can write at each other's offset. Download destinations therefore use this wrapper, which serialises
+// WriteAt per file system (a defect of the test double, not of datamon: it showed up once as a rare false alarm).
+
+type safeMemFs struct {
+	afero.Fs
+	mu *sync.Mutex
+}
+
+func newSafeMemMapFs() afero.Fs { return &safeMemFs{Fs: afero.NewMemMapFs(), mu: &sync.Mutex{}} }
+
+type safeMemFile struct {
+	afero.File
+	mu *sync.Mutex
+}
+
+func (f *safeMemFile) WriteAt(b []byte, off int64) (int, error) {
+	f.mu.Lock()
+	defer f.mu.Unlock()
+	return f.File.WriteAt(b, off)
+}
+
+func (s *safeMemFs) wrap(f afero.File, err error) (afero.File, error) {
+	if err != nil {
+		return f, err
+	}
+	return &safeMemFile{File: f, mu: s.mu}, nil
+}
+
+func (s *safeMemFs) Create(name string) (afero.File, error) { return s.wrap(s.Fs.Create(name)) }
+func (s *safeMemFs) Open(name string) (afero.File, error)   { return s.wrap(s.Fs.Open(name)) }
+func (s *safeMemFs) OpenFile(name string, flag int, perm os.FileMode) (afero.File, error) {
+	return s.wrap(s.Fs.OpenFile(name, flag, perm))
 }
